@@ -28,13 +28,13 @@ Definition trim_end (s : bytes) : bytes := frev (trim_start (frev s)).
 (* trim_start_matches("<~"): removes the prefix repeatedly *)
 Fixpoint strip_lt_tilde (s : bytes) : bytes :=
   match s with
-  | 60%N :: 126%N :: r => strip_lt_tilde r
+  | a :: b :: r => if (a =? 60)%N && (b =? 126)%N then strip_lt_tilde r else s
   | _ => s
   end.
 (* trim_end_matches("~>") on the reversed text *)
 Fixpoint strip_gt_tilde_rev (s : bytes) : bytes :=
   match s with
-  | 62%N :: 126%N :: r => strip_gt_tilde_rev r
+  | a :: b :: r => if (a =? 62)%N && (b =? 126)%N then strip_gt_tilde_rev r else s
   | _ => s
   end.
 Definition trim_end_eod (s : bytes) : bytes := frev (strip_gt_tilde_rev (frev s)).
@@ -107,3 +107,55 @@ Definition of_a85res (r : a85res) : res bytes :=
 (* ASCII85Decode::transform as pinned (staging = whitespace removal only) *)
 Definition a85_decode_pinned (dbg : bool) (data : bytes) : res bytes :=
   of_a85res (crate_decode dbg (a85_stage data)).
+
+(* ---------- ASCII85Decode::transform after the C06 repairs (/repo 3276132) ---------- *)
+(* stage.strip_suffix("~>") *)
+Definition strip_eod (stage : bytes) : option bytes :=
+  match frev stage with
+  | a :: b :: r => if (a =? 62)%N && (b =? 126)%N then Some (frev r) else None
+  | _ => None
+  end.
+(* body.strip_prefix("<~").unwrap_or(body) *)
+Definition strip_start_marker (body : bytes) : bytes :=
+  match body with
+  | a :: b :: r => if (a =? 60)%N && (b =? 126)%N then r else body
+  | _ => body
+  end.
+
+Definition u32_max : N := 4294967295.
+
+(* for _ in n .. 5 { value = value * 85 + 84 } *)
+Fixpoint pad_value (k : nat) (value : N) : N :=
+  match k with O => value | S k' => pad_value k' (value * 85 + 84)%N end.
+
+(* the group-checking loop and the two tests after it; n = characters in the current group, value = their
+   value (u64 arithmetic; the value stays below 85^5 < 2^33, no overflow).  Returns the digits handed to the
+   crate, [None] = one of the error returns. *)
+Fixpoint a85_check (n : nat) (value : N) (s : bytes) : option bytes :=
+  match s with
+  | [] =>
+    if Nat.eqb n 1 then None
+    else if Nat.ltb 1 n then (if (u32_max <? pad_value (5 - n) value)%N then None else Some [])
+    else Some []
+  | c :: r =>
+    if (c =? 122)%N && Nat.eqb n 0 then
+      match a85_check n value r with Some d => Some (33 :: 33 :: 33 :: 33 :: 33 :: d)%N | None => None end
+    else if (33 <=? c)%N && (c <=? 117)%N then
+      let value' := (value * 85 + (c - 33))%N in
+      let n' := Nat.modulo (n + 1) 5 in
+      if Nat.eqb n' 0 then
+        if (u32_max <? value')%N then None
+        else match a85_check 0 0%N r with Some d => Some (c :: d) | None => None end
+      else match a85_check n' value' r with Some d => Some (c :: d) | None => None end
+    else None
+  end.
+
+Definition a85_decode (dbg : bool) (data : bytes) : res bytes :=
+  match strip_eod (a85_stage data) with
+  | None => Err ETransform
+  | Some body =>
+    match a85_check 0 0%N (strip_start_marker body) with
+    | None => Err ETransform
+    | Some digits => of_a85res (crate_decode dbg digits)
+    end
+  end.
